@@ -64,6 +64,8 @@ type Ctx struct {
 	allObs    map[string][]Obligation
 	grd       []guard
 	sib       []sibUse
+	ord       map[string]map[string]int
+	ordCount  map[string]map[string]int
 	funcLines map[string][]funcSpan
 	reach     map[string]map[string]bool
 	deadNew   map[*types.Func]bool
@@ -109,6 +111,21 @@ func isRepoPkg(path string) bool {
 	return path == modRoot || strings.HasPrefix(path, modRoot+"/")
 }
 
+// resetProgramCaches drops every package-level table keyed by objects of a loaded program. The
+// thorough tier loads several hundred variants of the tree in one process; a cache that is never
+// emptied keeps every one of those programs alive (64 GB after some five hundred loads).
+func resetProgramCaches() {
+	liveCache = map[*ssa.Function]map[*ssa.BasicBlock]bool{}
+	relMergeCache = map[*ssa.Function][]*ssa.BasicBlock{}
+	allLenSums = map[*ssa.Phi]bool{}
+	ctorCache.c, ctorCache.m = nil, nil
+	lockCache.c, lockCache.la = nil, nil
+	setOnce = map[*types.Var][]ssa.Value{}
+	globalInit = map[*ssa.Global]ssa.Value{}
+	globalFieldInit = map[*ssa.Global]map[*types.Var]ssa.Value{}
+	transitiveWritersMemo = nil
+}
+
 // Load loads the working tree; when it contains unexported functions that the
 // pinned tree does not have, calls to them are inlined back (inline.go) and the
 // tree is loaded again from the rewritten overlay, up to four rounds.
@@ -121,6 +138,7 @@ func Load(o LoadOpts) (*Ctx, error) {
 	unembedded := false
 	canonDone := false
 	funcRenames = map[string]string{}
+	resetProgramCaches()
 	for round := 1; ; round++ {
 		c, err := loadOnce(o)
 		if err != nil {
